@@ -792,8 +792,15 @@ func ruleKeyExact(c *Ctx, r *Report) {
 			if tv, ok := info.Types[e]; ok && tv.Value != nil {
 				return true
 			}
-			_, ok := e.(*ast.Ident)
-			return ok
+			if _, ok := e.(*ast.Ident); ok {
+				return true
+			}
+			// a value canonicaliser (parse to the key's type, render again) merges only spellings of
+			// one key value: "1.0" and "1" are the same decimal64.
+			if call, ok := e.(*ast.CallExpr); ok {
+				return c.isKeyCanonicaliser(c.funcOfCallee(Callee(info, call)))
+			}
+			return false
 		}
 		n := 0
 		ast.Inspect(f.Decl.Body, func(x ast.Node) bool {
